@@ -33,6 +33,7 @@ type task struct {
 
 	cond      *sync.Cond
 	running   bool
+	deleted   bool // Set by the garbage collector once the task left Limiter.tasks.
 	output    interface{}
 	expiresAt time.Time
 }
@@ -94,6 +95,13 @@ func (l *Limiter) Run(input interface{}) interface{} {
 func (l *Limiter) getOutput(t *task) interface{} {
 	t.cond.L.Lock()
 
+	if t.deleted {
+		// The garbage collector removed t after the caller looked it up. Running
+		// it could duplicate the task of whoever replaced it, so start over.
+		t.cond.L.Unlock()
+		return l.Run(t.input)
+	}
+
 	if !t.expired(l.clk.Now()) {
 		defer t.cond.L.Unlock()
 		return t.output
@@ -132,6 +140,7 @@ func (gc *limiterTaskGC) Run() {
 	for input, t := range gc.limiter.tasks {
 		t.cond.L.Lock()
 		expired := t.expired(gc.limiter.clk.Now()) && !t.running
+		t.deleted = expired
 		t.cond.L.Unlock()
 		if expired {
 			delete(gc.limiter.tasks, input)
